@@ -707,6 +707,11 @@ pub fn sweep(ctx: &Ctx, plan: &SweepPlan, rep: &mut Report, checker: &Checker) -
     spaces.push(Box::new(EditSpace::new("E2.k1", k1_skels, full.clone(), k1_bytes)));
     if plan.k1_all_bytes && !plan.langid_only {
         spaces.push(Box::new(EditSpace::new("E2.k1.allbytes", skeletons(false, false), vec![], ByteStrings::all_bytes())));
+    } else if !plan.langid_only {
+        // quick tier: ALL 256 byte values at every byte position of a reduced skeleton set that has
+        // every kind of subtag in every extension (a validator that folds or masks bytes before
+        // testing them can let through any of the 256, not only the boundary bytes)
+        spaces.push(Box::new(EditSpace::new("E2.k1.allbytes", k2_skeletons(), vec![], ByteStrings::all_bytes())));
     }
     if plan.k2 {
         let k2_skels = if plan.langid_only { langid_skeletons(false) } else { k2_skeletons() };
@@ -738,8 +743,8 @@ pub fn sweep(ctx: &Ctx, plan: &SweepPlan, rep: &mut Report, checker: &Checker) -
     // histories of two calls on the stateless entry points
     spaces.push(Box::new(PairSpace { label: "E3.pairs".into(), items: history_menu() }));
     // one identifier of every canonical length (fixed-size buffers, length fast paths)
-    spaces.push(Box::new(ListSpace { label: "E2.ladder".into(), items: length_ladder(if ctx.quick() { 300 } else { 1100 }, !plan.langid_only),
-        what: "for every byte length up to 300 [1100]: identifiers of exactly that canonical length (4 language-id prefixes filled with distinct unsorted variants; for locales also with the length spent on attributes, keyword values, tfield values, tlang variants and private tags)".into() }));
+    spaces.push(Box::new(ListSpace { label: "E2.ladder".into(), items: with_underscores(length_ladder(if ctx.quick() { 300 } else { 1100 }, !plan.langid_only)),
+        what: "for every byte length up to 300 [1100]: identifiers of exactly that canonical length (4 language-id prefixes filled with distinct unsorted variants; for locales also with the length spent on attributes, keyword values, tfield values, tlang variants and private tags); each also with '_' as its first, as its last and as every separator".into() }));
     // count ladder: every list position of the grammar at every element count, in every order shape
     {
         let (n_max, rep_max) = super::counts::count_bounds(ctx);
@@ -775,6 +780,26 @@ pub fn sweep(ctx: &Ctx, plan: &SweepPlan, rep: &mut Report, checker: &Checker) -
     rep.extra.insert("outcomes".into(), outcomes_json(&all.outcomes));
     rep.samples = all.samples_json(12);
     all
+}
+
+/// each text as it is, with `_` as its first separator, as its last separator and as every
+/// separator (a length threshold combined with the other separator)
+pub fn with_underscores(items: Vec<Vec<u8>>) -> Vec<Vec<u8>> {
+    let mut out = std::collections::BTreeSet::new();
+    for b in items {
+        let seps: Vec<usize> = b.iter().enumerate().filter(|(_, c)| **c == b'-').map(|(i, _)| i).collect();
+        if let (Some(&f), Some(&la)) = (seps.first(), seps.last()) {
+            let mut x = b.clone();
+            x[f] = b'_';
+            out.insert(x);
+            let mut x = b.clone();
+            x[la] = b'_';
+            out.insert(x);
+            out.insert(b.iter().map(|c| if *c == b'-' { b'_' } else { *c }).collect());
+        }
+        out.insert(b);
+    }
+    out.into_iter().collect()
 }
 
 /// the reduced skeleton set used for two-edit neighbourhoods (kept small: every skeleton has
